@@ -402,6 +402,32 @@ func runC14(c *ev.ChildEnv, res *ev.Result) {
 				res.Seen(fmt.Sprintf("mounts|%d", len(ms)))
 			}
 		}
+		// mounts converted the way the spec generator does it: with a propagation query
+		{
+			props := []string{"rprivate", "rshared", "rslave"}
+			var opts []string
+			wantProp := ""
+			for j, k := 0, g.rng.IntN(6); j < k; j++ {
+				if g.chance(0.4) {
+					pr := props[g.rng.IntN(3)]
+					opts = append(opts, pr)
+					wantProp = pr
+				} else {
+					opts = append(opts, g.pick([]string{"ro", "rw", "rbind", "nosuid", "noexec", "nodev"}))
+				}
+			}
+			m := &api.Mount{Destination: "/d", Source: "/s", Type: "bind", Options: opts}
+			q := ""
+			o := m.ToOCI(&q)
+			res.Eval()
+			if strings.Join(o.Options, ",") != strings.Join(opts, ",") || o.Destination != "/d" || o.Source != "/s" || o.Type != "bind" {
+				res.Violate("C14/mount-to-oci-with-query", fmt.Sprintf("Mount.ToOCI with a propagation query changed the mount: options %v became %v", opts, o.Options), m)
+			} else if q != wantProp {
+				res.Violate("C14/mount-propagation-query", fmt.Sprintf("options %v: propagation reported as %q, the last propagation option is %q", opts, q, wantProp), m)
+			} else if wantProp != "" {
+				res.Seen(fmt.Sprintf("mount-query|%s|opts%d", wantProp, len(opts)))
+			}
+		}
 		// devices
 		var ds []rspec.LinuxDevice
 		for j, k := 0, g.rng.IntN(4); j < k; j++ {
